@@ -21,6 +21,9 @@ Mismatch(e) ==
        (IF der'.pool # ToSeq(e.obs.pool) THEN {"C14:site-pool-in-force=pool(site type, current inputs)"} ELSE {})
   \cup (IF der'.factors # ToSeq(e.obs.factors) THEN {"C14:nucleus-factors-in-force=f(site type, current energies)"} ELSE {})
   \cup (IF der'.gibbs # ToSeq(e.obs.gibbs) THEN {"C12:gibbs-thomson-in-force=f(current interfacial energy, volume, shape)"} ELSE {})
+  \cup (IF der'.pool2 # ToSeq(e.obs.pool2) THEN {"C14:site-pool-in-force=pool(site type, current inputs)[second phase]"} ELSE {})
+  \cup (IF der'.factors2 # ToSeq(e.obs.factors2) THEN {"C14:nucleus-factors-in-force=f(site type, current energies)[second phase]"} ELSE {})
+  \cup (IF der'.gibbs2 # ToSeq(e.obs.gibbs2) THEN {"C12:gibbs-thomson-in-force=f(current interfacial energy, volume, shape)[second phase]"} ELSE {})
   \cup (IF der'.x # ToSeq(e.obs.x) THEN {"C01:starting-composition=current initial composition"} ELSE {})
 TSet == /\ l <= Len(Tr) /\ Ev.e = "set" /\ Set(Ev.field, Ev.arg) /\ UNCHANGED nops
         /\ fails' = fails /\ l' = l + 1 /\ tid' = tid
